@@ -48,6 +48,22 @@ type Violation struct {
 	Info     string  `json:"info,omitempty"`
 	Replay   *Replay `json:"replay,omitempty"`
 	Job      *Job    `json:"job,omitempty"`
+	// Tags: the properties this violation is evidence against (empty = the
+	// property of the job). A check reports only violations tagged with its
+	// own property, so one oracle cannot poison another property's verdict.
+	Tags []string `json:"tags,omitempty"`
+}
+
+func (v *Violation) relevant(prop string) bool {
+	if len(v.Tags) == 0 {
+		return true
+	}
+	for _, t := range v.Tags {
+		if t == prop {
+			return true
+		}
+	}
+	return false
 }
 
 func (v *Violation) Sig() string { return v.Prop + "|" + v.Scenario + "|" + v.Oracle + "|" + v.Detail }
@@ -93,6 +109,27 @@ var propInfo = map[string]PropInfo{}
 func RegisterProp(id string, p Planner, info PropInfo) {
 	planners[id] = p
 	propInfo[id] = info
+}
+
+// WrapPlanner post-processes the job list of an already registered property
+// (registration order between files of a package is by file name, so wrappers
+// are applied lazily at planning time).
+var wrappers = map[string][]func(tier string, jobs []Job) []Job{}
+
+func WrapPlanner(id string, f func(tier string, jobs []Job) []Job) {
+	wrappers[id] = append(wrappers[id], f)
+}
+
+func plan(id, tier string) ([]Job, bool) {
+	pl, ok := planners[id]
+	if !ok {
+		return nil, false
+	}
+	jobs := pl(tier)
+	for _, w := range wrappers[id] {
+		jobs = w(tier, jobs)
+	}
+	return jobs, true
 }
 
 func Props() []string {
@@ -181,12 +218,11 @@ func LoadKnown(root string) []KnownFinding {
 // RunProperty plans, runs (in parallel worker processes) and aggregates the
 // jobs of one property; writes evidence and replay files; returns exit code.
 func RunProperty(root, prop, tier string, seed int64, exePlain, exeRace string) int {
-	pl, ok := planners[prop]
+	jobs, ok := plan(prop, tier)
 	if !ok {
 		fmt.Fprintln(os.Stderr, "no check for property", prop)
 		return 2
 	}
-	jobs := pl(tier)
 	for i := range jobs {
 		jobs[i].Prop = prop
 		jobs[i].Tier = tier
@@ -251,6 +287,9 @@ func RunProperty(root, prop, tier string, seed int64, exePlain, exeRace string) 
 		}
 		for k := range r.Violations {
 			v := r.Violations[k]
+			if !v.relevant(prop) {
+				continue
+			}
 			jj := jobs[i]
 			v.Job = &jj
 			all = append(all, v)
